@@ -216,12 +216,12 @@ let run_line (line : String.t) : unit =
          | "parse" ->
              let e = parse_entry (next t) in
              let data = hex t in
-             print_kvs id (run_parse e data @ spec_parse e data)
+             print_kvs id (run_parse e data @ spec_parse2 e data)
          | "build" ->
              let bufs = next t in
              let m = parse_member t in
              let size = size_of (m_calc m) in
-             print_kvs id (run_build m (parse_bufs bufs size) @ spec_build m)
+             print_kvs id (run_build m (parse_bufs bufs size) @ spec_build2 m)
          | "chunk" ->
              let bufs = next t in
              let c = parse_chunk t in
